@@ -167,16 +167,33 @@ def _sat_conj(lits):
                 else:
                     sig[sg] = k
     lits = lits + [('eq', a, b) for a, b in congr]
-    # axiom: truthiness of a sized object vs its len() term
+    # axiom: truthiness of a sized object vs its len() term (also through syntactic equalities x == y)
+    eqs = {}
+    for l in lits:
+        if l[0] == 'eq':
+            eqs.setdefault(l[1].key, set()).add(l[2].key)
+            eqs.setdefault(l[2].key, set()).add(l[1].key)
+
+    def eq_class(k):
+        seen = {k}
+        todo = [k]
+        while todo:
+            x = todo.pop()
+            for y in eqs.get(x, ()):
+                if y not in seen:
+                    seen.add(y)
+                    todo.append(y)
+        return seen
     extra = []
     for l in lits:
         if l[0] == 'truthy':
-            lk = 'len(%s)' % l[1].key
-            if lk in terms:
-                if l[2]:
-                    extra.append(('lt', _CONST0, terms[lk]))
-                else:
-                    extra.append(('eq', terms[lk], _CONST0))
+            for k in eq_class(l[1].key):
+                lk = 'len(%s)' % k
+                if lk in terms:
+                    if l[2]:
+                        extra.append(('lt', _CONST0, terms[lk]))
+                    else:
+                        extra.append(('eq', terms[lk], _CONST0))
     for l in extra:
         for t in lit_terms(l):
             node(t)
